@@ -109,7 +109,7 @@ static St *Lp;
 
 static int p_del_queued_timer, p_del_queued_fd, p_del_queued_job, p_del_queued_sig, p_self_del, p_readd_in_cb, p_stale_handle,
 	p_slot_reuse_stale, p_fd_reuse, p_two_sig_then_del, p_retneg, p_retneg_open, p_close_retneg, p_number_reused_in_cb, p_default_loop, p_sig_mod, p_fd_mod_data, p_stop, p_throttle50, p_ms31, p_ms32, p_overflow, p_equal_expiry,
-	p_timer_fired, p_nohandle, p_adders, p_nested, p_job_del_foreign, p_long_run, p_eintr_epoll, p_eintr_retry, p_async_sig, p_hup, p_busy;
+	p_timer_fired, p_nohandle, p_dup_add, p_adders, p_nested, p_job_del_foreign, p_long_run, p_eintr_epoll, p_eintr_retry, p_async_sig, p_hup, p_busy;
 
 static void init(const char *prop)
 {
@@ -141,6 +141,7 @@ static void init(const char *prop)
 	p_long_run = counter_id("probe", "run_longer_than_1000_iterations");
 	p_eintr_epoll = counter_id("probe", "epoll_wait_eintr");
 	p_nohandle = counter_id("probe", "timer_added_without_asking_for_a_handle");
+	p_dup_add = counter_id("probe", "second_add_of_a_watched_descriptor");
 	p_adders = counter_id("probe", "timers_added_by_several_threads_at_once");
 	p_nested = counter_id("probe", "second_loop_instance_run_from_a_callback");
 	p_job_del_foreign = counter_id("probe", "job_del_naming_a_pending_timers_callback_and_data");
@@ -542,6 +543,15 @@ static void do_op(size_t oi, int from_obj)
 		for (size_t i = 0; i < L.objs.size(); i++) (void)i;
 		break; }
 	case K_FD_ADD: {
+		if (o.type == O_FD && o.rfd >= 0 && o.reg && !L.stopped && (op.a[4] & 1)) {
+			// a second add of a descriptor that is already watched: the kernel refuses it (-EEXIST) and the registration
+			// that exists is none the worse for it (the data handed over here must never reach a callback)
+			Reg rr; rr.obj = o.id; rr.gen = 0x7ffffff0; L.regs.push_back(rr);
+			int r2 = qb_loop_poll_add(LP, (enum qb_loop_priority)prio, o.rfd, POLLIN, &L.regs.back(), fd_cb);
+			count(p_dup_add);
+			ev(330, o.id, r2);
+			break;
+		}
 		if (o.type != O_FD || o.rfd < 0 || o.reg || L.stopped) break;
 		int r = qb_loop_poll_add(LP, (enum qb_loop_priority)prio, o.rfd, POLLIN, new_cookie(o), fd_cb);
 		if (r != 0) { VIOL(8, "poll-add-failed", "qb_loop_poll_add", "qb_loop_poll_add(fd) returned %d", r); break; }
@@ -995,7 +1005,7 @@ static void gen(const char *prop, RunSpec &spec)
 			int64_t t = nj + nt + (int64_t)r.below((uint64_t)nf);
 			uint32_t y = (uint32_t)r.below(100);
 			if (y < 18) { p.add(0, K_FD_OPEN, trg, nth, t); p.add(0, K_FD_ADD, trg, nth, t, r.below(3)); }
-			else if (y < 28) p.add(0, K_FD_ADD, trg, nth, t, r.below(3));
+			else if (y < 28) p.add(0, K_FD_ADD, trg, nth, t, r.below(3), r.below(2));      // (a[4]&1: if it is watched already, add it again)
 			else if (y < 48) { if (r.chance(1, 2)) p.add(0, K_FD_WRITE, trg, nth, t, r.below(8)); else p.add(0, K_FD_WRITE, -2, (int64_t)r.below(3000000000ULL), t, r.below(8)); }
 			else if (y < 58) p.add(0, K_FD_DRAIN, trg, nth, t);
 			else if (y < 66) p.add(0, K_FD_MOD, trg, nth, t, r.below(3), r.below(4));
